@@ -24,7 +24,7 @@ FINDERS = {'moon_phase': ['new', 'first', 'full', 'last'], 'moon_perigee_apogee'
 REPLAY = r'''
 from pymeeus.Epoch import Epoch
 from pymeeus.Moon import Moon
-fn = getattr(Moon, INPUTS['func']); target = INPUTS['target']
+fn = getattr(Moon, INPUTS['func']); target = INPUTS.get('target', '')
 bad = None
 def jde_of(r):
     return (r[0] if isinstance(r, tuple) else r).jde()
@@ -36,6 +36,20 @@ if INPUTS['kind'] == 'target':
         pass
     except Exception as ex:
         bad = 'invalid target: %r' % (ex,)
+elif INPUTS['kind'] == 'rate':
+    target = ''
+    for yy in range(-2000, 4000, 3):
+        ea, eb = Epoch(yy, 3, 1.0), Epoch(yy, 3, 11.0)
+        if INPUTS['func'] == 'longitude_true_ascending_node':
+            d = (float(Moon.longitude_true_ascending_node(ea)) - float(Moon.longitude_mean_ascending_node(ea)) + 180.0) % 360.0 - 180.0
+            if abs(d) > INPUTS['tol']:
+                bad = 'true - mean node = %r degrees at year %d' % (d, yy); break
+        else:
+            d = (float(fn(eb)) - float(fn(ea)) + 180.0) % 360.0 - 180.0
+            cent = 10.0 / 36525.0
+            want = ((INPUTS['rate'] * cent) + 180.0) % 360.0 - 180.0
+            if abs(d - want) > INPUTS['tol'] * cent + 1e-9:
+                bad = 'advance over 10 days %r degrees, secular rate gives %r (year %d)' % (d, want, yy); break
 elif INPUTS['kind'] == 'distance':
     # the solver's query first; then (the correction bound is an over-approximation) every quarter day of that calendar year and its neighbours
     b, Y, doy = INPUTS['b'], INPUTS['Y'], INPUTS['doy']
@@ -315,17 +329,79 @@ def task_fraction(_):
     return t
 
 
+RATES_SEC = {'longitude_mean_ascending_node': ('-1934.1362891', '0.5'), 'longitude_mean_perigee': ('4069.0137287', '1.5')}
+
+
+def task_rates(fname):
+    """mean node / mean perigee: between any two epochs of the range the longitude advances at the secular rate of Meeus
+    ch. 47 (degrees per Julian century, tolerance for the T^2.. terms over 60 centuries); true node within the sum of its
+    five periodic amplitudes of the mean node"""
+    t = harness.Task('Moon.%s' % fname)
+    mod = loader.mod('Moon')
+    E = loader.mod('Epoch')
+    j1, j2 = Num.real_var('j1'), Num.real_var('j2')
+    e1, e2 = E.Epoch(), E.Epoch()
+    orig = mod.Angle
+    mod.Angle = PassAngle2
+    fn = getattr(mod.Moon, fname)
+
+    def run():
+        e1._jde = j1
+        e2._jde = j2
+        a, b = fn(e1), fn(e2)
+        return a.v, b.v, [v for k_, v in core.CUR.memo.items() if isinstance(k_, tuple) and k_[0] in ('sin', 'cos')]
+    lo, hi = 990557.5, 3182395.5          # years -2000 .. 4000
+    try:
+        ctx, paths = core.explore(run, [j1.e >= lo, j2.e <= hi, j1.e < j2.e], trig='box', check_div0=False, max_paths=10, timeout_ms=20000)
+    finally:
+        mod.Angle = orig
+    t.absorb_ctx(ctx, paths)
+    bd = 'every pair of epochs j1 < j2 in years -2000..4000'
+    if len(paths) != 1 or paths[0].kind != 'ok':
+        t.ob('Moon.%s total: one path' % fname, 'unknown', 0, bd)
+        return t
+    p = paths[0]
+    v1, v2, boxes = p.val
+    v1, v2 = core.lift(v1).re(), core.lift(v2).re()
+    dT = (j2.e - j1.e) / 36525
+    t.reach += 1
+    if fname in RATES_SEC:
+        rate, tol = RATES_SEC[fname]
+        r0, tl = z3.RealVal(rate), z3.RealVal(tol)
+        t.decide(ctx, p, 'Moon.%s advances at %s deg/century (+- %s) between any two epochs' % (fname, rate, tol),
+                 z3.Or(v2 - v1 > (r0 + tl) * dT, v2 - v1 < (r0 - tl) * dT), 'C15.rate', lambda mo: {'kind': 'rate', 'func': fname, 'rate': float(rate), 'tol': float(tol)},
+                 'secular rate', bd, timeout_ms=120000, retry=False)
+    else:
+        # true node: same epoch twice is enough -- compare with the mean node at that epoch
+        mean1 = None
+        mod.Angle = PassAngle2
+        try:
+            ctx2, paths2 = core.explore(lambda: (mod.Moon.longitude_mean_ascending_node(_set(e1, j1)).v), [j1.e >= lo, j1.e <= hi], trig='box', check_div0=False, max_paths=10)
+        finally:
+            mod.Angle = orig
+        mean1 = core.lift(paths2[0].val).re()
+        t.decide(ctx, p, 'true ascending node within 1.98 degrees of the mean node (sum of the five periodic amplitudes)',
+                 z3.Or(v1 - mean1 > z3.RealVal('1.98'), mean1 - v1 > z3.RealVal('1.98')), 'C15.rate', lambda mo: {'kind': 'rate', 'func': fname, 'rate': 0.0, 'tol': 1.98},
+                 'true node', 'every epoch in years -2000..4000; sines boxed', timeout_ms=120000, retry=False)
+    return t
+
+
+def _set(e, j):
+    e._jde = j
+    return e
+
+
 def dispatch(job):
     k, a = job
-    return {'finder': task_finder, 'targets': task_targets, 'frac': task_fraction}[k](a)
+    return {'finder': task_finder, 'targets': task_targets, 'frac': task_fraction, 'rate': task_rates}[k](a)
 
 
 def main(tier):
     loader.install()
     chk = harness.Check(PID, tier)
-    chk.replays = {'C15.skel': REPLAY, 'C15.target': REPLAY, 'C15.dist': REPLAY, 'C15.frac': "sys.exit(0)\n"}
-    chk.functions = ['Moon.moon_phase', 'Moon.moon_perigee_apogee', 'Moon.moon_passage_nodes', 'Moon.moon_maximum_declination', 'Moon.illuminated_fraction_disk']
-    jobs = [('finder', (f, tg)) for f, tgs in FINDERS.items() for tg in tgs] + [('targets', 0), ('frac', 0)]
+    chk.replays = {'C15.skel': REPLAY, 'C15.target': REPLAY, 'C15.dist': REPLAY, 'C15.rate': REPLAY, 'C15.frac': "sys.exit(0)\n"}
+    chk.functions = ['Moon.longitude_mean_ascending_node', 'Moon.longitude_mean_perigee', 'Moon.longitude_true_ascending_node', 'Moon.moon_phase', 'Moon.moon_perigee_apogee', 'Moon.moon_passage_nodes', 'Moon.moon_maximum_declination', 'Moon.illuminated_fraction_disk']
+    jobs = [('finder', (f, tg)) for f, tgs in FINDERS.items() for tg in tgs] + [('targets', 0), ('frac', 0)] + [('rate', f) for f in ('longitude_mean_ascending_node', 'longitude_mean_perigee', 'longitude_true_ascending_node')]
     chk.run(dispatch, jobs, 'lunar finders: selection skeleton')
     # the calendar position written in task_finder (J0, leap years, fractional year) against the real Epoch on concrete dates
     E = loader.mod('Epoch')
